@@ -98,7 +98,7 @@ fn remove_percent_suffix(arg: &str) -> &str {
 }
 
 fn ensure_display_width_1(what: &str, arg: String) -> String {
-    match arg.grapheme_indices(true).count() {
+    match crate::ansi::measure_text_width(&arg) {
         INLINE_SYMBOL_WIDTH_1 => arg,
         width => fatal(format!(
             "Invalid value for {what}, display width of \"{arg}\" must be {INLINE_SYMBOL_WIDTH_1} but is {width}",
